@@ -1168,6 +1168,38 @@ def sweep_slide_text(cls):
     return None
 
 
+def check_pptx_text(base, formulas, descriptions, captions):
+    """PptxSlide.get_text against the documented composition: base text, one piece per formula, one caption per described image"""
+    dt = _dt()
+    slide = dt.PptxSlide(slide_number=1, base_text=base, text=base,
+                         formulas=[dt.PptxFormula(latex=l, is_display=bool(d)) for l, d in formulas],
+                         images=[dt.PptxImage(image_index=i + 1, description=d) for i, d in enumerate(descriptions)])
+    got = slide.get_text(include_image_captions=captions)
+    want = ([base] if base else []) + [(f"$${l}$$" if d else f"${l}$") for l, d in formulas]
+    if captions:
+        want += [f"[Image: {d}]" for d in descriptions if d]
+    want = "\n".join(want)
+    if got != want:
+        return {"target": "data_types.py::PptxSlide.get_text", "inputs": {"base_text": base, "formulas": [list(f) for f in formulas],
+                                                                          "image_descriptions": list(descriptions), "include_image_captions": captions},
+                "expected": repr(want), "observed": repr(got), "check": "pptx_text"}
+    return None
+
+
+def sweep_pptx_text():
+    fs = [("x", 0), ("y", 1)]
+    for base in ("", "B", "d1"):
+        for nf in range(0, 3):
+            for formulas in itertools.product(fs, repeat=nf):
+                for ni in range(0, 4):
+                    for descs in itertools.product(("", "d1", "d2"), repeat=ni):
+                        for captions in (False, True):
+                            r = check_pptx_text(base, list(formulas), list(descs), captions)
+                            if r:
+                                return r
+    return None
+
+
 CELL_VALUES = [(None, False), ("", False), (" ", False), ("\n\t", False), ("x", True), (" x ", True), (0, True), (0.0, True), (False, True), (7, True)]
 
 
@@ -1197,6 +1229,8 @@ def sweeps_for(target):
             out.append(("slide_text:" + cls, lambda cls=cls: sweep_slide_text(cls)))
     if "_is_cell_non_empty" in t:
         out.append(("cell_non_empty", sweep_cell_non_empty))
+    if "PptxSlide.get_text" in t:
+        out.append(("pptx_text", sweep_pptx_text))
     for cls in _paged():
         if f"{cls}." in t:
             out.append(("paged:" + cls, lambda cls=cls: sweep_paged(cls)))
@@ -1260,7 +1294,7 @@ def all_sweeps():
             ("ppt_tokens", sweep_ppt_tokens), ("flowing:txt", lambda: sweep_flowing("txt")), ("flowing:html", lambda: sweep_flowing("html")),
             ("mail_parts:eml", lambda: sweep_mail_parts("eml")), ("mail_parts:mbox", lambda: sweep_mail_parts("mbox", exclude=_recorded("mbox")))]
     out += [("slide_text:PptSlideContent", lambda: sweep_slide_text("PptSlideContent")), ("slide_text:OdpSlide", lambda: sweep_slide_text("OdpSlide")),
-            ("cell_non_empty", sweep_cell_non_empty)]
+            ("cell_non_empty", sweep_cell_non_empty), ("pptx_text", sweep_pptx_text)]
     return out
 
 
@@ -1486,6 +1520,8 @@ def rerun(stored):
         r = check_slide_text(inp["class"], inp["title"], inp["body_text"], inp["other_text"])
     elif chk == "cell_non_empty":
         r = check_cell_non_empty(inp["value_index"])
+    elif chk == "pptx_text":
+        r = check_pptx_text(inp["base_text"], [tuple(f) for f in inp["formulas"]], inp["image_descriptions"], inp["include_image_captions"])
     elif chk == "epub_soup":
         r = check_epub_soup(inp["unclosed"], inp.get("chapters_after", 2))
     elif chk == "epub_rich":
